@@ -195,8 +195,8 @@ canon_model = vc.canon_model
 def oracle(case, out):
     if out.get("hang"):
         return f"the scheduler did not return within the {out['watchdog_s']} s watchdog on a finite schedule"
-    pending = {}
-    cancelled = set()
+    ht = vc.HandleTracker()
+    pending, cancelled = ht.pending, ht.cancelled
     cur = None
     must_be_enabled = False   # may the scheduler legitimately be enabled between calls? (only after an exception escaped)
     for ev in out["events"]:
@@ -204,11 +204,11 @@ def oracle(case, out):
         if k == "op":
             cur = {"name": ev[2], "arg": ev[3], "c0": ev[4], "enabled": ev[5], "stopped": False, "ran": 0}
         elif k == "sched":
-            pending[ev[1]] = ev[2]
-            cancelled.discard(ev[1])
+            ht.sched(ev[1], ev[2])
         elif k == "cancel":
-            if ev[1] in pending:
-                cancelled.add(ev[1])
+            ht.cancel(ev[1])
+        elif k == "ret":
+            ht.ret(ev[1], ev[2])
         elif k == "stop":
             if cur is not None:
                 cur["stopped"] = True
